@@ -198,3 +198,25 @@ def stability_uint(c: "array", w: "array", p: int, k: int):
     written_uint_is_a_code(w, p, v)
     ue_pattern_decodes(w, p, v)
     uint_bits_reproduced(c, w, p, k, blen(v + 1) - 1)
+
+
+@lemma
+def stability_sint(c: "array", w: "array", p: int, k: int):
+    """C06 for signed exp-Golomb fields (outside bounded blocks).  The tape holds a complete code of magnitude m at p, followed
+    (if m != 0) by a sign bit s; read_sint returns v = (1 - 2*s) * m (its contract).  write_sint(v) at p leaves
+    ue_pattern(view, p, abs(v)) and, if v != 0, the sign bit (1 iff v < 0) right after it (its contract).  Then the view holds
+    exactly the bits read - magnitude code and sign bit - and nothing more."""
+    requires(k >= 0 and iscode(c, p, k) == 1)
+    requires(ue_val(c, p, 1) >= 0)
+    requires(0 <= tbit(c, p + 2 * k + 1) and tbit(c, p + 2 * k + 1) <= 1)
+    # v as read_sint's contract defines it, and the writer's postcondition for that v
+    requires(ue_pattern(w, p, abs((1 - 2 * tbit(c, p + 2 * k + 1)) * ue_val(c, p, 1)) if ue_val(c, p, 1) != 0 else 0))
+    requires(implies(ue_val(c, p, 1) != 0,
+                     tbit(w, p + (blen(ue_val(c, p, 1) + 1) - 1) * 2 + 1) == (1 if (1 - 2 * tbit(c, p + 2 * k + 1)) * ue_val(c, p, 1) < 0 else 0)))
+    ensures(forall(p, p + 2 * k + 1, lambda q: tbit(w, q) == tbit(c, q), trigger=lambda q: tbit(w, q)))
+    ensures(implies(ue_val(c, p, 1) != 0, tbit(w, p + 2 * k + 1) == tbit(c, p + 2 * k + 1)))
+    m = ue_val(c, p, 1)
+    s = tbit(c, p + 2 * k + 1)
+    check(implies(m != 0, abs((1 - 2 * s) * m) == m))
+    ue_pairs_from_value(c, p, k)
+    stability_uint(c, w, p, k)
